@@ -79,6 +79,12 @@ impl Arena {
         self.base == NonNull::dangling()
     }
 
+    /// Verification accessors: (base address, capacity, committed bytes).
+    #[cfg(feature = "verif")]
+    pub fn verif_layout(&self) -> (usize, usize, usize) {
+        (self.base.as_ptr() as usize, self.capacity, self.commit.get())
+    }
+
     pub const fn offset(&self) -> usize {
         self.offset.get()
     }
